@@ -8,12 +8,12 @@ CONFIG = {
         {"name": "queue", "modules": ["Model.Queue", "Model.QueueCheck"],
          "check": "check_case", "monitor": "monitor_case", "model_out": "model_out", "case_type": "case",
          "ops_path": [],             # the input term is the op list itself
-         "n_quick": 400, "n_thorough": 20000, "shard": 200},
+         "n_quick": 800, "n_thorough": 20000, "shard": 200},
         # the real simulation.executeQueue (verif hook pkg/simulation/export_verif.go) on a real Simulation
         {"name": "drain", "modules": ["Model.Queue", "Model.DrainCheck"],
          "check": "check_case", "monitor": "monitor_case", "model_out": "model_out", "case_type": "case",
          "ops_path": [2],            # (units, action scripts, top-level ops)
-         "n_quick": 400, "n_thorough": 20000, "shard": 200},
+         "n_quick": 800, "n_thorough": 20000, "shard": 200},
     ],
     "rule": "queue: 8-70 Insert/Pop calls on the real queue.Handler keeping 3-30 tasks pending, priorities from the "
             "real InsertPriority constants plus {0,-1,75,76,2^40} (equal priorities are the norm; 1 case in 8 uses a "
